@@ -130,6 +130,11 @@ def rule_creation(ctx: Ctx, repo: Repo) -> None:
         lab = f"dict with {n} {kk} key(s), limit {m}"
         is_td = isinstance(res, R) and res.kind == "typeddict"
         want = n > 0 and kk == "str" and n <= m
+        if kk in ("nonident", "keyword", "strsub"):
+            # string keys that cannot be class fields, or instances of a str subclass: C06 only demands that a TypedDict, if
+            # one is built, stays within the limit (whether one may be built is C12's / C03's question)
+            ctx.check(not is_td or 0 < n <= m, "R-C06.3", w, "a TypedDict is never larger than the limit", construct=f"{lab}: TypedDict with {n} keys")
+            continue
         ctx.check(is_td == want, "R-C06.3", w,
                   "a TypedDict is created exactly for a non-empty dict whose keys are all str and whose size is within the limit",
                   construct=f"{lab}: {'TypedDict' if is_td else _short(res, 60)} (expected {'TypedDict' if want else 'Dict[...]'})")
